@@ -900,6 +900,8 @@ def r56(ctx: Ctx) -> RuleReport:
         rep.undecided('penman._format:format_triples: one triple is written as role-without-colon "(" source ", " target ")"', fi.loc(), norm(elt)[:70])
     else:
         tpl = _merge_tpl(tpl)
+        # a role never ends in a colon (the lexical grammar keeps ':' out of names), so strip(':') and removeprefix(':') are the same function on roles
+        tpl = [(k, f"{r_}.lstrip(':')") if k == 'field' and x in (f"{r_}.strip(':')", f"{r_}.removeprefix(':')") else (k, x) for k, x in tpl]
         good = tpl == want
         # positive only when the template was understood and differs in its literal skeleton or field order
         rep.add('penman._format:format_triples: one triple is written as role-without-colon "(" source ", " target ")"', fi.loc(),
